@@ -382,9 +382,20 @@ Definition any_cfg (imp : bool) (Ss : list ufilt) : @cfg comp :=
      c_exc := false; c_imp := Some imp; c_any := true |}.
 
 Theorem alias_anything g imp Ss :
-  assert_applies ceqb rmatch g (any_cfg imp Ss) =
-  assert_applies ceqb rmatch g (mk_ucfg ShouldNot imp true (drop_children ceqb Ss) (drop_children ceqb Ss)).
-Proof. reflexivity. Qed.
+  verdict ceqb rmatch g (any_cfg imp Ss) =
+  verdict ceqb rmatch g (mk_ucfg ShouldNot imp true (drop_children ceqb Ss) (drop_children ceqb Ss)).
+Proof.
+  unfold verdict, assert_applies.
+  change (c_any (any_cfg imp Ss) && (c_should (any_cfg imp Ss) || c_only (any_cfg imp Ss))) with false.
+  change (c_any (mk_ucfg ShouldNot imp true (drop_children ceqb Ss) (drop_children ceqb Ss)) &&
+          (c_should (mk_ucfg ShouldNot imp true (drop_children ceqb Ss) (drop_children ceqb Ss)) ||
+           c_only (mk_ucfg ShouldNot imp true (drop_children ceqb Ss) (drop_children ceqb Ss)))) with false.
+  cbv iota.
+  change (convert_aliases ceqb (any_cfg imp Ss)) with (mk_ucfg ShouldNot imp true (drop_children ceqb Ss) (drop_children ceqb Ss)).
+  change (convert_aliases ceqb (mk_ucfg ShouldNot imp true (drop_children ceqb Ss) (drop_children ceqb Ss)))
+    with (mk_ucfg ShouldNot imp true (drop_children ceqb Ss) (drop_children ceqb Ss)).
+  destruct (negb (required_present _)); [reflexivity|]. destruct (negb (behavior_consistent _)); reflexivity.
+Qed.
 
 Lemma drop_children_single (f : ufilt) : drop_children ceqb [f] = [f].
 Proof.
@@ -397,7 +408,7 @@ Qed.
 
 Theorem alias_anything_single g imp (f : ufilt) :
   V g (any_cfg imp [f]) = V g (mk_ucfg ShouldNot imp true [f] [f]).
-Proof. unfold V, verdict. rewrite alias_anything, drop_children_single. reflexivity. Qed.
+Proof. unfold V. rewrite alias_anything, drop_children_single. reflexivity. Qed.
 
 
 (* ---- monotonicity in the import relation ---- *)
